@@ -131,6 +131,40 @@ def _push_loop_fill(mg, mo):
             'from_map': 'HashMap' in flow.render(src) and 'hash::map::' in (h.callee or '')}
 
 
+
+def stale_slots(ctx, prog, rid):
+    """C06.R6 first half (shared with C04 as C04.R7): no slot number looked up before a tombstone compaction is used after it."""
+    n6 = 0
+    done6 = set()
+    for c0 in prog.callers_of('HnswBackend::compact_tombstones'):
+        f = c0.body
+        if f.id in done6:
+            continue
+        done6.add(f.id)
+        of6 = flow.Origin(f)
+        comp = [c for c in f.calls if c.callee and c.callee.endswith('HnswBackend::compact_tombstones')]
+        look = [c for c in f.calls if c.callee and re.search(r'::get(_mut)?$|::contains_key$|::remove$', c.callee) and c.args and
+                flow.render(of6.of_operand(c.args[0])).endswith('DocumentStore.external_to_internal')]
+        uses = []
+        for c in f.calls:
+            if c in look or not c.callee:
+                continue
+            if any(a.get('k') in ('mv', 'cp') and re.search(r'DocumentStore\.external_to_internal, [^)]*\)', flow.render(of6.of_operand(a))) for a in c.args):
+                uses.append(c.bb)
+        for i_, blk in enumerate(f.blocks):
+            if i_ in f.live_blocks() and blk['t']['k'] == 'switch':
+                d_ = blk['t'].get('d')
+                if d_ and d_.get('k') in ('mv', 'cp') and 'DocumentStore.external_to_internal, ' in flow.render(of6.of_operand(d_)):
+                    uses.append(i_)
+        n6 += len(comp)
+        starts = [c.to for c in comp if c.to is not None]
+        r6 = (f.reach(starts, avoid_blocks=[c.bb for c in look]) | set(starts)) if starts else set()
+        stale = sorted(set(u for u in uses if u in r6))
+        ctx.inst(rid, f.short, 'no slot number is used across a compaction without a fresh lookup', bool(comp) and bool(look) and bool(uses) and not stale,
+                 ('the slot looked up before the compaction is used at %s after it' % f.loc_of(stale[0])) if stale else
+                 '%d compaction call(s), %d lookup(s), %d use site(s) of looked-up slots; every use after a compaction is behind a new lookup' % (len(comp), len(look), len(set(uses))))
+    ctx.floor(rid, 'compaction call sites', n6, 1, 'HnswBackend::insert (full index with tombstones)')
+
 def run(ctx, prog):
     ctx.not_decided = ['reported distance = true distance within tolerance (SIMD kernels, user-distance conversion)',
                        'a strictly closer acknowledged recent write is never missing, as an inequality over distances (R8 decides the selection structure of the recent-write scan only)',
@@ -325,36 +359,7 @@ def run(ctx, prog):
     ctx.rule('C06.R6', 'tombstone compaction renumbers every internal slot. In each function that calls HnswBackend::compact_tombstones, a slot number obtained from '
                        'DocumentStore.external_to_internal is never used after the compaction without a fresh lookup in between (a stale number tombstones or rewrites '
                        'whatever document now sits there: the overwritten document is returned twice with its old vector, an unrelated live document vanishes)')
-    n6 = 0
-    done6 = set()
-    for c0 in prog.callers_of('HnswBackend::compact_tombstones'):
-        f = c0.body
-        if f.id in done6:
-            continue
-        done6.add(f.id)
-        of6 = flow.Origin(f)
-        comp = [c for c in f.calls if c.callee and c.callee.endswith('HnswBackend::compact_tombstones')]
-        look = [c for c in f.calls if c.callee and re.search(r'::get(_mut)?$|::contains_key$|::remove$', c.callee) and c.args and
-                flow.render(of6.of_operand(c.args[0])).endswith('DocumentStore.external_to_internal')]
-        uses = []
-        for c in f.calls:
-            if c in look or not c.callee:
-                continue
-            if any(a.get('k') in ('mv', 'cp') and re.search(r'DocumentStore\.external_to_internal, [^)]*\)', flow.render(of6.of_operand(a))) for a in c.args):
-                uses.append(c.bb)
-        for i_, blk in enumerate(f.blocks):
-            if i_ in f.live_blocks() and blk['t']['k'] == 'switch':
-                d_ = blk['t'].get('d')
-                if d_ and d_.get('k') in ('mv', 'cp') and 'DocumentStore.external_to_internal, ' in flow.render(of6.of_operand(d_)):
-                    uses.append(i_)
-        n6 += len(comp)
-        starts = [c.to for c in comp if c.to is not None]
-        r6 = (f.reach(starts, avoid_blocks=[c.bb for c in look]) | set(starts)) if starts else set()
-        stale = sorted(set(u for u in uses if u in r6))
-        ctx.inst('C06.R6', f.short, 'no slot number is used across a compaction without a fresh lookup', bool(comp) and bool(look) and bool(uses) and not stale,
-                 ('the slot looked up before the compaction is used at %s after it' % f.loc_of(stale[0])) if stale else
-                 '%d compaction call(s), %d lookup(s), %d use site(s) of looked-up slots; every use after a compaction is behind a new lookup' % (len(comp), len(look), len(set(uses))))
-    ctx.floor('C06.R6', 'compaction call sites', n6, 1, 'HnswBackend::insert (full index with tombstones)')
+    stale_slots(ctx, prog, 'C06.R6')
     # …and no writer can be between its slot lookup and its apply while the compaction runs: writers keep the write gate over that span (C05.R2 / C09.R1), so
     # the compaction must hold the write gate — unconditionally, the snapshot lock exists only with persistence — whenever it rewrites the store
     from kvstatic.locks import LockModel as _LM6
